@@ -370,6 +370,9 @@ type Finding struct {
 	What      string `json:"what"`
 	Witness   string `json:"witness,omitempty"`
 	ID        string `json:"id,omitempty"`
+	// Detail, when given, is the exact finding text of the violated obligation: another violation of the same rule at
+	// the same construct (a different way of being wrong) does not match and is reported
+	Detail string `json:"detail,omitempty"`
 }
 
 type KnownFile struct {
@@ -467,7 +470,7 @@ func Finish(verifDir string, ctxs []*Ctx, meta Meta, known *KnownFile, t0 time.T
 		matched := false
 		if o.Status == Violated {
 			for i, f := range known.Findings {
-				if f.Property == o.Property && f.Rule == o.Rule && f.Construct == o.Construct {
+				if f.Property == o.Property && f.Rule == o.Rule && f.Construct == o.Construct && (f.Detail == "" || f.Detail == o.Detail) {
 					o.Known = f.What
 					if f.ID != "" {
 						o.Known = f.ID + ": " + f.What
